@@ -671,30 +671,27 @@ fn honest_handle(w: &mut World, d: &Datagram<Meta>, now: u64) {
             let cookies: Vec<Vec<u8>> = opened.map(|efs| efs.into_iter().filter(|e| e.ty == wire::EF_COOKIE).map(|e| e.body).collect()).unwrap_or_default();
             let pe = wire::protected_end(&resp, v5).unwrap_or(0);
             let chunk = wire::walk(&resp, v5).into_iter().find(|e| e.ty == wire::EF_REFID_RESP && e.off < pe).map(|e| e.body);
-            // a damaged request is answered for whatever the server understood; it is bound only if the identifiers survived
-            let bound = d.mutation.is_none();
+            // binding is the server's authenticated echo of the identifiers it received
+            let bound = true;
             ev!("server answers client{client} seq={seq} len={} authentic={authentic} cookies={} stratum={}", resp.len(), cookies.len(), resp[1]);
             if !authentic {
                 probe("server-unauthenticated-answer");
             }
-            w.net.send(
-                now,
-                d.to,
-                d.from,
-                resp,
-                Meta {
-                    kind: Kind::Resp {
-                        client: *client,
-                        seq: *seq,
-                        authentic,
-                        bound,
-                        cookies,
-                        chunk,
-                        appended: false,
-                        tag: "real-server",
-                    },
+            let meta = Meta {
+                kind: Kind::Resp {
+                    client: *client,
+                    seq: *seq,
+                    authentic,
+                    bound,
+                    cookies,
+                    chunk,
+                    appended: false,
+                    tag: "real-server",
                 },
-            );
+            };
+            let (from, to) = (d.to, d.from);
+            adversary_on_response(w, &meta, &resp, from, to, now);
+            w.net.send(now, from, to, resp, meta);
         }
         Kind::AdvProbe { victim } => {
             // the adversary learns fresh cookies for its own session from the answer
@@ -882,24 +879,21 @@ fn byz_handle(w: &mut World, d: &Datagram<Meta>, now: u64) {
         cs.dup_possible = true;
     }
     ev!("byz answers client{client} seq={seq} {tag} len={} cookies={:?} chunk={:?}", resp.len(), cookies.iter().map(|c| c.len()).collect::<Vec<_>>(), chunk.as_ref().map(|c| c.len()));
-    w.net.send(
-        now,
-        d.to,
-        d.from,
-        resp,
-        Meta {
-            kind: Kind::Resp {
-                client,
-                seq,
-                authentic: true,
-                bound,
-                cookies,
-                chunk,
-                appended: false,
-                tag,
-            },
+    let meta = Meta {
+        kind: Kind::Resp {
+            client,
+            seq,
+            authentic: true,
+            bound,
+            cookies,
+            chunk,
+            appended: false,
+            tag,
         },
-    );
+    };
+    let (from, to) = (d.to, d.from);
+    adversary_on_response(w, &meta, &resp, from, to, now);
+    w.net.send(now, from, to, resp, meta);
 }
 
 #[derive(PartialEq, Debug, Clone, Copy)]
@@ -943,7 +937,7 @@ fn deliver_to_client(w: &mut World, ci: usize, d: Datagram<Meta>, _now: u64) {
                 };
             }
             let t: &'static str = if eligible {
-                tag
+                *tag
             } else if !*authentic {
                 "unauthenticated-server-answer"
             } else if !*bound {
@@ -986,13 +980,19 @@ fn deliver_to_client(w: &mut World, ci: usize, d: Datagram<Meta>, _now: u64) {
         a.n,
         diff(&before, &after)
     );
+    // shape of what was actually delivered (own walker): an NTPv5 kiss with the authnak flag and no authenticator
+    let shape = if wire::version(&bytes) == 5 && bytes[1] == 0 && bytes[15] & 0b100 != 0 && wire::protected_end(&bytes, true).is_none() {
+        "v5-unauthenticated-authnak-kiss"
+    } else {
+        "other"
+    };
     match mode {
         Mode::Strict => {
             check!(
                 "C07",
                 "unauthenticated-datagram-has-no-effect",
                 before == after && a.n == 0 && m0 == m1 && u0 == u1,
-                "prov={tag} v5={v5} mutation={mutation:?}: changed [{}] actions(reset={} demobilize={} n={}) measurements+{} usable-calls+{}",
+                "prov={tag} shape={shape} v5={v5} mutation={mutation:?}: changed [{}] actions(reset={} demobilize={} n={}) measurements+{} usable-calls+{}",
                 diff(&before, &after),
                 a.reset,
                 a.demobilize,
@@ -1074,19 +1074,24 @@ fn deliver_to_client(w: &mut World, ci: usize, d: Datagram<Meta>, _now: u64) {
 
 /// On-path: when a genuine authentic response passes, the adversary may race a copy with
 /// unauthenticated fields appended after the authenticator, or with a spliced header.
-fn adversary_on_response(w: &mut World, d: &Datagram<Meta>, now: u64) {
+fn adversary_on_response(w: &mut World, meta: &Meta, resp: &[u8], from: u32, to: u32, now: u64) {
     if !w.adv_on {
         return;
     }
-    let Kind::Resp { authentic: true, bound: true, appended: false, client, seq, cookies, chunk, tag, .. } = &d.meta.kind else {
+    let Kind::Resp { authentic: true, bound: true, appended: false, client, seq, cookies, chunk, tag, .. } = &meta.kind else {
         return;
     };
-    if d.mutation.is_some() || d.duplicate {
-        return;
+    struct D<'a> {
+        bytes: &'a [u8],
+        from: u32,
+        to: u32,
     }
-    let v5 = wire::version(&d.bytes) == 5;
+    let d = D { bytes: resp, from, to };
+    // injected datagrams overtake the genuine one (which still has its network latency ahead)
+    let now = now + 1_000;
+    let v5 = wire::version(d.bytes) == 5;
     if chance("adv.append", w.adv_rate * 0.5) {
-        let mut bytes = d.bytes.clone();
+        let mut bytes = d.bytes.to_vec();
         let mut junk = simkit::sub_rng("adv.append.junk");
         let junk_cookie: Vec<u8> = (0..104).map(|_| junk.next_u64() as u8).collect();
         match choose("adv.append.kind", 3) {
@@ -1110,7 +1115,7 @@ fn adversary_on_response(w: &mut World, d: &Datagram<Meta>, now: u64) {
                     from: d.from,
                     to: d.to,
                     bytes,
-                    original: Some(d.bytes.clone()),
+                    original: Some(d.bytes.to_vec()),
                     mutation: None,
                     duplicate: false,
                     sent_ns: now,
@@ -1130,7 +1135,7 @@ fn adversary_on_response(w: &mut World, d: &Datagram<Meta>, now: u64) {
             );
         }
     } else if chance("adv.splice", w.adv_rate * 0.5) {
-        let mut bytes = d.bytes.clone();
+        let mut bytes = d.bytes.to_vec();
         let tagk: &'static str = match choose("adv.splice.kind", 4) {
             0 => {
                 bytes[1] = 0; // stratum -> kiss
@@ -1150,7 +1155,7 @@ fn adversary_on_response(w: &mut World, d: &Datagram<Meta>, now: u64) {
                 if v5 {
                     bytes[2] = bytes[2].wrapping_add(3);
                 } else {
-                    bytes[1] = 1;
+                    bytes[1] = bytes[1] % 15 + 1;
                 }
                 "splice-poll-or-stratum"
             }
@@ -1161,6 +1166,9 @@ fn adversary_on_response(w: &mut World, d: &Datagram<Meta>, now: u64) {
                 "splice-ciphertext"
             }
         };
+        if bytes == d.bytes {
+            return;
+        }
         fault("adv-splice");
         ev!("adv races {tagk} (client{client})");
         w.net.inject(
@@ -1305,7 +1313,6 @@ pub fn run_nts() {
                 } else if d.to == ADV {
                     // unused: answers to the adversary's own probes are forwarded in honest_handle
                 } else if let Some(ci) = w.clients.iter().position(|c| c.addr == d.to) {
-                    adversary_on_response(&mut w, &d, now);
                     deliver_to_client(&mut w, ci, d, now);
                 }
             }
@@ -1343,12 +1350,8 @@ fn respawn(w: &mut World, ci: usize) {
             cookies.push(ntsclient::mint_cookie(&ks, alg512, &w.clients[ci].sess.c2s, &w.clients[ci].sess.s2c));
         }
     }
-    let mgr = &w.mgr;
-    let mut c = std::mem::replace(&mut w.clients[ci].src, None);
-    drop(c.take());
-    // borrow dance: build the source with a temporary move of the client
     let mut cl = w.clients.remove(ci);
-    new_client_source(mgr, &mut cl, &cookies);
+    new_client_source(&w.mgr, &mut cl, &cookies);
     w.clients.insert(ci, cl);
     ev!("client{ci} session established with {n} cookies");
 }
@@ -1407,7 +1410,10 @@ fn c14_timer(r: &mut Rig, ctx: &str) -> Option<Vec<u8>> {
     let res = exec::catch(|| collect(src.handle_timer()));
     check_c14(&res, ctx);
     match res {
-        Ok(a) => a.send.first().cloned(),
+        Ok(a) => {
+            ev!("poll [{ctx}] -> send={:?} reset={}", a.send.first().map(|p| p.len()), a.reset);
+            a.send.first().cloned()
+        }
         Err(_) => None,
     }
 }
@@ -1425,13 +1431,16 @@ async fn c14_uniform(len: usize, fill: usize, v5: bool) {
         }
         c
     };
-    let mut initial = vec![vec![0x11u8; 104]];
+    // a full stash of key-exchange cookies leaves no room for an ordinary first cookie:
+    // then the first poll itself is the fill=8 case and 7 remain afterwards
+    let ke_full = fill - k == 8;
+    let mut initial = if ke_full { vec![] } else { vec![vec![0x11u8; 104]] };
     for i in 0..(fill - k) {
         initial.push(mk(i));
     }
-    let delivered: Vec<Vec<u8>> = (fill - k..fill).map(mk).collect();
+    let delivered: Vec<Vec<u8>> = (fill - k..fill).map(|i| mk(i)).collect();
     ev!("c14 case len={len} fill={fill} v5={v5} via-response={k} via-ke={}", fill - k);
-    let mut r = rig(v5, Some(&initial), None);
+    let mut r = rig(v5, Some(initial.as_slice()), None);
     let ctx = format!("cookie_len={len} fill={fill} v5={v5}");
     // 1. first poll (uses the ordinary key-exchange cookie)
     let Some(req) = c14_timer(&mut r, &format!("{ctx} step=first-poll")) else {
@@ -1457,7 +1466,8 @@ async fn c14_uniform(len: usize, fill: usize, v5: bool) {
         return;
     }
     let held = r.src.verif_x_view().stash;
-    if held.len() != fill || held.iter().any(|c| c.len() != len) {
+    let expect_held = if ke_full { 7 } else { fill };
+    if held.len() != expect_held || held.iter().any(|c| c.len() != len) {
         simkit::abort(format!("{ctx}: stash holds {:?} instead of {fill} x {len}", held.iter().map(|c| c.len()).collect::<Vec<_>>()));
         return;
     }
@@ -1466,7 +1476,8 @@ async fn c14_uniform(len: usize, fill: usize, v5: bool) {
         r.t += 16_000_000_000;
         advance_to(r.t).await;
         let h = r.src.verif_x_view().stash.len();
-        if c14_timer(&mut r, &format!("{ctx} step=poll-with-{h}-held")).is_none() {
+        let sctx = format!("{ctx} step=poll-with-{h}-held");
+        if c14_timer(&mut r, &sctx).is_none() {
             break;
         }
         let _ = step;
@@ -1484,11 +1495,12 @@ async fn c14_mixed() {
             let n = 1 + choose("c14.n", 8) as usize;
             let cookies: Vec<Vec<u8>> = (0..n).map(|i| vec![i as u8; lens[choose("c14.len", lens.len() as u64) as usize]]).collect();
             ev!("c14 mixed v5={v5} lens={:?}", cookies.iter().map(|c| c.len()).collect::<Vec<_>>());
-            let mut r = rig(v5, Some(&cookies), None);
+            let mut r = rig(v5, Some(cookies.as_slice()), None);
             for _ in 0..n + 2 {
                 r.t += 1_000_000_000 * (1 + choose("c14.gap", 40));
                 advance_to(r.t).await;
-                let Some(req) = c14_timer(&mut r, &format!("{ctx} lens={:?}", r.src.verif_x_view().stash.iter().map(|c| c.len()).collect::<Vec<_>>())) else {
+                let sctx = format!("{ctx} lens={:?}", r.src.verif_x_view().stash.iter().map(|c| c.len()).collect::<Vec<_>>());
+                let Some(req) = c14_timer(&mut r, &sctx) else {
                     break;
                 };
                 if chance("c14.answer", 0.6) {
@@ -1523,7 +1535,8 @@ async fn c14_mixed() {
             for _ in 0..12 {
                 r.t += 1_000_000_000 * (1 + choose("c14.gap", 40));
                 advance_to(r.t).await;
-                let Some(req) = c14_timer(&mut r, &format!("{ctx} plain {pv:?}")) else { break };
+                let sctx = format!("{ctx} plain {pv:?}");
+                let Some(req) = c14_timer(&mut r, &sctx) else { break };
                 if chance("c14.answer", 0.7) {
                     let rh = Hdr::parse(&req).unwrap();
                     let send_ts = r.clock.now().unwrap();
@@ -1552,7 +1565,9 @@ async fn c14_mixed() {
                     }
                     let src = &mut r.src;
                     if let Err(msg) = exec::catch(|| collect(src.handle_incoming(&out, send_ts, send_ts))) {
-                        simkit::violation("C14", "poll-construction-panicked", format!("{ctx}: handle_incoming panicked: {msg}"));
+                        // receiving is not "building a poll": visible in the evidence, decided by the plain-source world
+                        probe("plain-source-panicked-on-datagram");
+                        ev!("plain source panicked in handle_incoming: {msg}");
                         return;
                     }
                 }
